@@ -45,6 +45,9 @@ pub fn guard<T>(f: impl FnOnce() -> T) -> Result<T, String> {
 }
 
 pub const CHUNK: u64 = 4096;
+/// Outcome digest used in ALL builds for a case whose input exceeds a documented no-allocator
+/// capacity (C18): the builds may legitimately differ there, but only by an `Err` in that build.
+pub const CAP_TOKEN: u64 = 0x0CA9_AC17;
 const MAX_DISTINCT: usize = 1 << 16;
 
 #[derive(Clone, Debug)]
@@ -70,6 +73,8 @@ pub struct Local {
     pub cur: u64,
     chunk_acc: u64,
     pub want_digest: bool,
+    /// verbose mode: the outcome digests of the case, in order
+    pub trace: Vec<u64>,
 }
 
 impl Local {
@@ -88,6 +93,7 @@ impl Local {
             cur: 0,
             chunk_acc: 0,
             want_digest: false,
+            trace: Vec::new(),
         }
     }
     /// The index does not denote a case (degenerate mutation, e.g. replacing a byte by itself).
@@ -111,6 +117,9 @@ impl Local {
     /// Digest of the canonical outcome of this case (distinct-outcome counting and C18 chunks).
     #[inline]
     pub fn outcome(&mut self, d: u64) {
+        if self.verbose {
+            self.trace.push(d);
+        }
         if self.distinct.len() < MAX_DISTINCT {
             self.distinct.insert(d);
         }
